@@ -96,47 +96,6 @@ end ordered
 
 /-! ### several frequencies: each solved separately, added in the time domain -/
 
-@[simp] theorem fam_zero (w : K) : (famOps (K := K)).zero w = (sinusOps w).zero := rfl
-@[simp] theorem fam_add (u v : K → Sinus K) (w : K) : famOps.add u v w = (sinusOps w).add (u w) (v w) := rfl
-@[simp] theorem fam_sub (u v : K → Sinus K) (w : K) : famOps.sub u v w = (sinusOps w).sub (u w) (v w) := rfl
-@[simp] theorem fam_neg (u : K → Sinus K) (w : K) : famOps.neg u w = (sinusOps w).neg (u w) := rfl
-@[simp] theorem fam_smul (r : K) (u : K → Sinus K) (w : K) : famOps.smul r u w = (sinusOps w).smul r (u w) := rfl
-@[simp] theorem fam_D (u : K → Sinus K) (w : K) : famOps.D u w = (sinusOps w).D (u w) := rfl
-
-@[simp] theorem fam_voltS (x : Ix → K → Sinus K) (n : Nat) (w : K) :
-    voltS famOps x n w = voltS (sinusOps w) (fun i => x i w) n := by
-  cases n <;> rfl
-
-@[simp] theorem fam_vdS (x : Ix → K → Sinus K) (a b : Nat) (w : K) :
-    vdS famOps x a b w = vdS (sinusOps w) (fun i => x i w) a b := by
-  simp only [vdS, fam_sub, fam_voltS]
-
-@[simp] theorem fam_twoTermS (n1 n2 k : Nat) (i : K → Sinus K) (w : K) :
-    twoTermS famOps n1 n2 k i w = twoTermS (sinusOps w) n1 n2 k (i w) := by
-  simp only [twoTermS, fam_sub]
-  split_ifs <;> rfl
-
-theorem fam_sumS (l : List (K → Sinus K)) (w : K) : sumS famOps l w = sumS (sinusOps w) (l.map (fun f => f w)) := by
-  induction l with
-  | nil => rfl
-  | cons h t ih => simp only [sumS, List.map_cons, fam_add, ih]
-
-@[simp] theorem fam_mutualDropS (x : Ix → K → Sinus K) (coup : List (Nat × K × Option K)) (w : K) :
-    mutualDropS famOps x coup w = mutualDropS (sinusOps w) (fun i => x i w) coup := by
-  simp only [mutualDropS, fam_sumS, List.map_map]
-  rfl
-
-theorem fam_outflowS (x : Ix → K → Sinus K) (k : Nat) (c : SCpt K (K → Sinus K)) (w : K) :
-    outflowS famOps x k c w = outflowS (sinusOps w) (fun i => x i w) k (atFreq w c) := by
-  obtain ⟨c, f⟩ := c
-  cases c <;> simp only [outflowS, atFreq, fam_twoTermS, fam_add, fam_sub, fam_neg, fam_smul, fam_D, fam_vdS, fam_zero]
-
-theorem fam_lawsS (x : Ix → K → Sinus K) (c : SCpt K (K → Sinus K)) (w : K) :
-    (lawsS famOps x c).map (fun p => (p.1, p.2 w)) = lawsS (sinusOps w) (fun i => x i w) (atFreq w c) := by
-  obtain ⟨c, f⟩ := c
-  cases c <;> simp only [lawsS, atFreq, List.map_cons, List.map_nil, fam_add, fam_sub, fam_neg, fam_smul, fam_D,
-    fam_vdS, fam_voltS, fam_mutualDropS]
-
 /-- **multi_frequency_iff**: a signal that is a sum of sinusoids of several angular frequencies (one (a, b) pair
     per frequency; sources likewise) satisfies the time-domain laws iff, at EVERY frequency ω, its ω-component
     satisfies the time-domain laws of the netlist in which each source keeps only its ω-component. -/
@@ -185,11 +144,6 @@ theorem other_frequency_source_killed (w : K) (n1 n2 m : Nat) (v : K) (f : K →
 
 /-! ### ω = 0 is the DC analysis -/
 
-theorem mutualDrop_zero (x : Ix → K) (coup : List (Nat × K × Option K)) : mutualDrop 0 x coup = 0 := by
-  induction coup with
-  | nil => simp [mutualDrop, lsum]
-  | cons p t ih => simp only [mutualDrop, List.map_cons, lsum] at ih ⊢; rw [ih]; ring
-
 /-- **ac_at_zero_is_dc**: the phasor-domain laws at s = j·0 are the DC laws (a capacitor passes no current, an
     inductor — coupled or not — is a short), for every netlist over any field. -/
 theorem ac_at_zero_is_dc (s' : K) (cs : List (Cpt K)) (x : Ix → K) :
@@ -206,23 +160,6 @@ theorem ac_at_zero_is_dc (s' : K) (cs : List (Cpt K)) (x : Ix → K) :
 
 /-- in `Cx K`: s = jω at ω = 0 is s = 0 -/
 theorem jw_zero : jw (0 : K) = 0 := rfl
-
-@[simp] theorem const_zero : (constOps (K := K)).zero = 0 := rfl
-@[simp] theorem const_add (u v : K) : constOps.add u v = u + v := rfl
-@[simp] theorem const_sub (u v : K) : constOps.sub u v = u - v := rfl
-@[simp] theorem const_neg (u : K) : constOps.neg u = -u := rfl
-@[simp] theorem const_smul (r u : K) : constOps.smul r u = r * u := rfl
-@[simp] theorem const_D (u : K) : constOps.D u = 0 := rfl
-
-@[simp] theorem const_voltS (x : Ix → K) (n : Nat) : voltS constOps x n = volt x n := by cases n <;> rfl
-@[simp] theorem const_vdS (x : Ix → K) (a b : Nat) : vdS constOps x a b = vd x a b := by simp [vdS, vd]
-@[simp] theorem const_twoTermS (n1 n2 k : Nat) (i : K) : twoTermS constOps n1 n2 k i = twoTerm n1 n2 k i := by
-  simp [twoTermS, twoTerm]
-
-theorem const_sumS (l : List K) : sumS constOps l = lsum l := by
-  induction l with
-  | nil => rfl
-  | cons h t ih => simp only [sumS, lsum, const_add, ih]
 
 /-- **dc_iff_const**: constant signals satisfy the time-domain laws (d/dt = 0) iff they satisfy the DC laws. -/
 theorem dc_iff_const (s' : K) (tcs : List (SCpt K K)) (x : Ix → K) :
